@@ -211,6 +211,24 @@ def euler_index(prog: Program) -> RuleResult:
     else:
         shown = short(tours[0]) if tours else "no tour"
         res.fail(construct, f"the tour is `{shown}`, not the tour of the whole tree `{tparam}` given to the constructor: nodes outside it have no index and every level is shifted", mod, tours[0] if tours else init)
+    # (1c) the range-minimum structure indexes the WHOLE tour: the positions stored in traversal_index are
+    # positions of self.traversal, and a one-node tree has a tour of one entry
+    construct = f"{TREES}:LowestCommonAncestor.__init__/rmq-over-tour"
+    rmqs = [c for c in walk_no_nested(init) if isinstance(c, ast.Call) and dotted(c.func) == "RangeMinQuery"]
+    if len(rmqs) != 1 or not rmqs[0].args:
+        raise AnalysisError("__init__: construction of the RangeMinQuery not found")
+    arg = rmqs[0].args[0]
+    src = arg
+    if isinstance(arg, ast.Name):
+        got = reaching(init, arg.id, rmqs[0])
+        src = got if got is not None and not isinstance(got, Opaque) else arg
+    while isinstance(src, ast.Call) and dotted(src.func) in ("list", "tuple") and len(src.args) == 1:
+        src = src.args[0]
+    tour_names = {"self.traversal"} | {dotted(t) for st in walk_no_nested(init) if isinstance(st, ast.Assign) and isinstance(st.value, ast.Call) and dotted(st.value.func) == "_euler_tour" for t in st.targets}
+    if dotted(src) in tour_names:
+        res.ok(construct, f"RangeMinQuery({short(arg)}) over the whole tour")
+    else:
+        res.fail(construct, f"the range-minimum structure is built over `{short(src, 60)}`, not over the tour itself: positions of the tour and positions of the table no longer coincide for every tree (a one-node tree has a tour of one entry)", mod, rmqs[0])
     # (2) range = [min, max + 1)
     construct = f"{TREES}:LowestCommonAncestor.__call__/range"
     q = [c for c in walk_no_nested(call) if isinstance(c, ast.Call) and dotted(c.func) == "self.range_min_query"]
@@ -370,6 +388,79 @@ def rmq_windows(prog: Program) -> RuleResult:
         res.ok(construct, f"None exactly when {a} >= {b}")
     else:
         res.fail(construct, f"the empty-range answer is not guarded by `{a} >= {b}` (a one-element range is not empty, an empty one must not index the table)", mod, call)
+    # no other refusal: every `return None` / `raise` of the query is the answer to an empty range
+    construct = f"{RMQ}:RangeMinQuery.__call__/only-empty-refused"
+
+    def is_empty_test(t: ast.AST, pol: bool) -> bool:
+        if isinstance(t, ast.Compare) and len(t.ops) == 1 and pol:
+            l, op, rr = dotted(t.left), t.ops[0], dotted(t.comparators[0])
+            return ((l, rr) == (a, b) and isinstance(op, ast.GtE)) or ((l, rr) == (b, a) and isinstance(op, ast.LtE))
+        if isinstance(t, ast.Compare) and len(t.ops) == 1 and not pol:
+            l, op, rr = dotted(t.left), t.ops[0], dotted(t.comparators[0])
+            return ((l, rr) == (a, b) and isinstance(op, ast.Lt)) or ((l, rr) == (b, a) and isinstance(op, ast.Gt))
+        return False
+
+    refusals = [x for x in walk_no_nested(call) if isinstance(x, ast.Raise)] + none_rets
+    length_names = {
+        t.id for st in walk_no_nested(call) if isinstance(st, ast.Assign) and isinstance(st.value, ast.Call) and dotted(st.value.func) == "len"
+        for t in st.targets if isinstance(t, ast.Name)
+    }
+
+    def truth(t: ast.AST, env) -> bool:
+        from ..arith import evaluate as aeval
+
+        if isinstance(t, ast.BoolOp):
+            vals = [truth(v, env) for v in t.values]
+            return all(vals) if isinstance(t.op, ast.And) else any(vals)
+        if isinstance(t, ast.UnaryOp) and isinstance(t.op, ast.Not):
+            return not truth(t.operand, env)
+        if isinstance(t, ast.Compare):
+            vals = [aeval(t.left, env)] + [aeval(c, env) for c in t.comparators]
+            ops = {ast.Lt: lambda x, y: x < y, ast.LtE: lambda x, y: x <= y, ast.Gt: lambda x, y: x > y, ast.GtE: lambda x, y: x >= y, ast.Eq: lambda x, y: x == y, ast.NotEq: lambda x, y: x != y}
+            for (x, y), op in zip(zip(vals, vals[1:]), t.ops):
+                if type(op) not in ops:
+                    raise AnalysisError(f"RangeMinQuery.__call__: test `{short(t)}` not understood")
+                if not ops[type(op)](x, y):
+                    return False
+            return True
+        raise AnalysisError(f"RangeMinQuery.__call__: test `{short(t)}` not understood")
+
+    from ..arith import Unsupported as _Unsupported
+
+    class _LenOfData(ast.NodeTransformer):
+        """`len(<anything of self>)` inside a test is the length of the data"""
+
+        def visit_Call(self, node: ast.Call):
+            if dotted(node.func) == "len" and len(node.args) == 1 and (dotted(node.args[0]) or ast.unparse(node.args[0])).startswith("self."):
+                return ast.Name(id="__length__", ctx=ast.Load())
+            return self.generic_visit(node)
+
+    import copy as _copy
+
+    length_names = set(length_names) | {"__length__"}
+    stray = None
+    for x in refusals:
+        gs = [(_LenOfData().visit(_copy.deepcopy(t)), pol) for t, pol in guards(call, x)]
+        for length in range(1, 7):
+            for lo in range(0, length + 1):
+                for hi in range(0, length + 1):
+                    env = {a: lo, b: hi}
+                    env.update({n: length for n in length_names})
+                    try:
+                        fires = all(truth(t, env) == pol for t, pol in gs)
+                    except _Unsupported as err:
+                        raise AnalysisError(f"RangeMinQuery.__call__: the condition of `{short(x, 50)}` is not understood ({err})")
+                    if not fires:
+                        continue
+                    if lo < hi or (isinstance(x, ast.Raise)):
+                        stray = stray or (x, gs, lo, hi, length)
+    if stray:
+        x, gs, lo, hi, length = stray
+        cond = " and ".join(("" if pol else "not ") + short(t, 50) for t, pol in gs) or "always"
+        what = "raises" if isinstance(x, ast.Raise) else "answers None"
+        res.fail(construct, f"the query [{lo}, {hi}) on data of length {length} {what} (`{short(x, 50)}` when {cond}): every half-open range with 0 <= {a}, {b} <= length is legitimate - {b} == length is the end of the data, {a} == length bounds an empty range, and the LCA of a one-node tree asks for [0, 1)", mod, x)
+    else:
+        res.ok(construct, f"{len(refusals)} refusal(s); over all ranges within data of length 1..6 only empty ranges are answered None and none raises")
     construct = f"{RMQ}:RangeMinQuery.__call__/bounds-as-given"
     rebinds = [
         st for st in walk_no_nested(call)
